@@ -33,7 +33,50 @@ func (p *Prog) DeepSourcesStop(v ssa.Value, depth int, throughCallers bool, stop
 	}
 	var out []ssa.Value
 	seen := map[ssa.Value]bool{}
+	type sinkFn func(v ssa.Value, fr *frame, depth int) bool // true: handled, do not report v itself
+	var sink sinkFn
 	var walk func(v ssa.Value, fr *frame, depth int)
+	// fieldOf reports (and walks) what field idx of the struct value sv denotes, when sv is a copy of a
+	// literal built in the module
+	fieldOf := func(sv ssa.Value, idx int, fr *frame, depth int) bool {
+		forwarded := false
+		sink = func(lv ssa.Value, sfr *frame, sd int) bool {
+			u, ok := lv.(*ssa.UnOp)
+			if !ok || u.Op != token.MUL {
+				return true
+			}
+			a, ok := u.X.(*ssa.Alloc)
+			if !ok || a.Referrers() == nil {
+				return true
+			}
+			var vals []ssa.Value
+			for _, r := range *a.Referrers() {
+				fa, ok := r.(*ssa.FieldAddr)
+				if !ok || fa.Field != idx || fa.Referrers() == nil {
+					continue
+				}
+				for _, rr := range *fa.Referrers() {
+					if st, ok := rr.(*ssa.Store); ok && st.Addr == ssa.Value(fa) {
+						vals = append(vals, st.Val)
+					}
+				}
+			}
+			if len(vals) == 0 {
+				return true
+			}
+			forwarded = true
+			saved := sink
+			sink = nil
+			for _, val := range vals {
+				walk(val, sfr, sd)
+			}
+			sink = saved
+			return true
+		}
+		walk(sv, fr, depth-1)
+		sink = nil
+		return forwarded
+	}
 	walk = func(v ssa.Value, fr *frame, depth int) {
 		for _, src := range Sources(v) {
 			key := src
@@ -95,6 +138,40 @@ func (p *Prog) DeepSourcesStop(v ssa.Value, depth int, throughCallers bool, stop
 						continue
 					}
 				}
+			case *ssa.Field:
+				// a field of a struct value: when the value is (a copy of) a literal built in the module,
+				// the field denotes what was stored into it
+				if depth > 0 && sink == nil && fieldOf(x.X, x.Field, fr, depth) {
+					continue
+				}
+			case *ssa.UnOp:
+				// the same for a struct value spilled into a local (value receivers, parameters whose
+				// address is taken): *(&local.f) where local was assigned a whole struct value
+				if fa, ok := x.X.(*ssa.FieldAddr); ok && x.Op == token.MUL && depth > 0 && sink == nil {
+					if a, ok := fa.X.(*ssa.Alloc); ok && a.Referrers() != nil {
+						var whole []ssa.Value
+						partial := false
+						for _, r := range *a.Referrers() {
+							switch y := r.(type) {
+							case *ssa.Store:
+								if y.Addr == ssa.Value(a) {
+									whole = append(whole, y.Val)
+								}
+							case *ssa.FieldAddr:
+								if y.Field == fa.Field && y.Referrers() != nil {
+									for _, rr := range *y.Referrers() {
+										if st, ok := rr.(*ssa.Store); ok && st.Addr == ssa.Value(y) {
+											partial = true
+										}
+									}
+								}
+							}
+						}
+						if len(whole) == 1 && !partial && fieldOf(whole[0], fa.Field, fr, depth) {
+							continue
+						}
+					}
+				}
 			case *ssa.Extract:
 				if call, ok := x.Tuple.(*ssa.Call); ok && depth > 0 {
 					if callee := singleModuleCallee(p, call); callee != nil && !calleeOnStack(callee, fr) {
@@ -115,6 +192,9 @@ func (p *Prog) DeepSourcesStop(v ssa.Value, depth int, throughCallers bool, stop
 						continue
 					}
 				}
+			}
+			if sink != nil && sink(src, fr, depth) {
+				continue
 			}
 			if !seen[key] {
 				seen[key] = true
